@@ -1135,6 +1135,16 @@ class Sym:
                 if v[0] == 'lam':
                     return self._apply_lam(v, args)
                 return ('call', 'apply', (v,) + tuple(args))
+            # a sibling closure (another nested function of an enclosing function) when this function is evaluated on its own
+            g = fr.ctx.func
+            while g is not None and g.parent is not None:
+                sib = g.parent.nested.get(f.id)
+                if sib is not None and sib is not g and not isinstance(sib.node, ast.Lambda):
+                    root = env
+                    while root.parent is not None:
+                        root = root.parent
+                    return self._inline_closure(sib, root, args, kwargs, fr)
+                g = g.parent
             return self._call_named(f.id, node, args, kwargs, env, fr)
         if isinstance(f, ast.Attribute):
             if isinstance(f.value, ast.Call) and isinstance(f.value.func, ast.Name) and f.value.func.id == 'super' and fr.self_term is not None:
@@ -1358,10 +1368,22 @@ def assume(t, decide):
     memo = {}
 
     def truth(c):
-        if isinstance(c, tuple) and c and c[0] == 'not':
+        if not (isinstance(c, tuple) and c):
+            return None
+        v = decide(c)
+        if v is not None:
+            return v
+        if c[0] == 'not':
             v = truth(c[1])
             return None if v is None else (not v)
-        return decide(c)
+        if c[0] == 'lit':
+            return bool(c[1])
+        if c[0] in ('and', 'or') and isinstance(c[1], tuple):
+            vs = [truth(p_) for p_ in c[1]]
+            if c[0] == 'and':
+                return False if any(v is False for v in vs) else (True if all(v is True for v in vs) else None)
+            return True if any(v is True for v in vs) else (False if all(v is False for v in vs) else None)
+        return None
 
     def go(x):
         if not isinstance(x, tuple):
@@ -1526,10 +1548,24 @@ def intern_term(t):
     return go(t)
 
 
+def _cond_depth(t, d=0):
+    if d > 6 or not (isinstance(t, tuple) and t and t[0] == 'cond'):
+        return d
+    return max(_cond_depth(t[2], d + 1), _cond_depth(t[3], d + 1))
+
+
 def _norm1(t):
     k = t[0]
     if k == 'str':
         return t[1] if is_stringy(t[1]) else t
+    if k == 'index' and len(t) == 3 and t[2][0] == 'lit' and isinstance(t[2][1], int) and not isinstance(t[2][1], bool):
+        base, i = t[1], t[2][1]
+        if base[0] in ('tuple', 'list') and -len(base[1]) <= i < len(base[1]):
+            return base[1][i]
+        # element of a conditional tuple: (a, b) if c else (d, e)
+        if base[0] == 'cond' and (base[2][0] in ('tuple', 'list', 'cond') or base[3][0] in ('tuple', 'list', 'cond')) and _cond_depth(base) <= 4:
+            return _norm1(('cond', base[1], _norm1(('index', base[2], t[2])), _norm1(('index', base[3], t[2]))))
+        return t
     if k == 'cat':
         parts = []
         for p in t[1]:
@@ -1563,8 +1599,11 @@ def _norm1(t):
             return a
         if c == ('lit', True):
             return a
-        if c == ('lit', False):
+        if c == ('lit', False) or c == ('lit', None):
             return b
+        if c[0] == 'cond' and _cond_depth(c) <= 3:
+            # the test is itself conditional: decide it branch by branch
+            return _norm1(('cond', c[1], _norm1(('cond', c[2], a, b)), _norm1(('cond', c[3], a, b))))
         if c[0] == 'not':
             return ('cond', c[1], b, a)
         if c[0] == 'cmp' and c[1] in ('IsNot', 'NotEq', 'NotIn'):
